@@ -3,6 +3,7 @@ package main
 import (
 	"fmt"
 	"go/ast"
+	"go/token"
 	"go/types"
 	"strings"
 
@@ -80,6 +81,9 @@ func (c *FnCtx) exec(in ssa.Instruction) {
 		t := in.Type().Underlying().(*types.Pointer).Elem()
 		r := c.allocRef(in.Comment)
 		c.setVal(in, Val{T: r, Ty: in.Type()})
+		if allocIsLocal(in, 0) {
+			c.localCells = append(c.localCells, r)
+		}
 		// zero-initialise
 		c.storeLoc(c.cellLoc(r, t), c.zero(t))
 		return
@@ -87,7 +91,7 @@ func (c *FnCtx) exec(in ssa.Instruction) {
 		p := c.val(in.Addr)
 		v := c.val(in.Val)
 		if len(v.Path) > 0 {
-			c.unsup("interior pointer stored to memory")
+			c.unsup("interior pointer stored to memory: %s (value %s)", in, in.Val.Name())
 		}
 		c.nilCheck(p, true, "store")
 		l := c.resolve(p)
@@ -208,10 +212,107 @@ func (c *FnCtx) havocVal(t types.Type, why string) Val {
 	return Val{T: n, Ty: t}
 }
 
+// havocAll models a call with unknown effects: every heap array changes arbitrarily — except cells of
+// local variables whose address never escapes to code outside this function (a callee cannot reach them).
 func (c *FnCtx) havocAll() {
+	pre := c.heap
+	c.heap = c.heap.clone()
 	for _, name := range heapNamesSorted(c.heap) {
 		c.havocHeap(name)
 	}
+	if c.discover {
+		return
+	}
+	for _, a := range c.localCells {
+		for _, name := range heapNamesSorted(c.heap) {
+			n := strings.Trim(name, "|")
+			if !(strings.HasPrefix(n, "H ") || strings.HasPrefix(n, "Cell ") || strings.HasPrefix(n, "Elems ")) {
+				continue
+			}
+			old, cur := pre[name], c.heap[name]
+			if old == cur {
+				continue
+			}
+			c.define(eq(sel(cur, a), sel(old, a)))
+			if kv, ok := c.known[old][a]; ok {
+				if c.known[cur] == nil {
+					c.known[cur] = map[string]string{}
+				}
+				c.known[cur][a] = kv
+			}
+			if kv, ok := c.known2[old][a]; ok {
+				if c.known2[cur] == nil {
+					c.known2[cur] = map[string]string{}
+				}
+				c.known2[cur][a] = kv
+			}
+		}
+	}
+}
+
+// allocIsLocal: the address of this Alloc is only used for loads, stores and field/index addressing in this
+// function, or captured by closures that are only called directly here and use it the same way.
+func allocIsLocal(a ssa.Value, depth int) bool {
+	if depth > 4 {
+		return false
+	}
+	refs := a.Referrers()
+	if refs == nil {
+		return false
+	}
+	for _, r := range *refs {
+		switch x := r.(type) {
+		case *ssa.DebugRef:
+		case *ssa.Store:
+			if x.Val == a {
+				return false
+			}
+		case *ssa.UnOp:
+			if x.Op != token.MUL {
+				return false
+			}
+		case *ssa.FieldAddr:
+			if !allocIsLocal(x, depth+1) {
+				return false
+			}
+		case *ssa.IndexAddr:
+			if !allocIsLocal(x, depth+1) {
+				return false
+			}
+		case *ssa.MakeClosure:
+			// the closure must only be called directly, and its body must keep the variable local
+			crefs := x.Referrers()
+			if crefs == nil {
+				return false
+			}
+			for _, cr := range *crefs {
+				switch y := cr.(type) {
+				case *ssa.DebugRef:
+				case *ssa.Call:
+					if y.Call.Value != ssa.Value(x) {
+						return false
+					}
+				case *ssa.Defer:
+					if y.Call.Value != ssa.Value(x) {
+						return false
+					}
+				default:
+					return false
+				}
+			}
+			fn := x.Fn.(*ssa.Function)
+			for i, b := range x.Bindings {
+				if b == a {
+					if !allocIsLocal(fn.FreeVars[i], depth+1) {
+						return false
+					}
+				}
+			}
+		default:
+			return false
+		}
+	}
+	return true
 }
 
 func (c *FnCtx) makeSlice(in *ssa.MakeSlice) {
